@@ -20,6 +20,41 @@ type EvalCtx struct {
 	loop      *loopInfo
 	loopEntry *MemState
 	at        ssa.Instruction // program point for local-name resolution (nil = function end / header)
+	copyFromOld bool
+	wit         []string // candidate witnesses for Int-bound existentials (loop indices)
+	witDepth    int
+	goal        bool // expression is an obligation (not an assumption)
+	neg         bool // current polarity is negative
+	nopol       bool // under an equivalence: polarity unknown
+}
+
+// witnessCandidates: current values of all range-loop indices (element being processed / completed count).
+func (fr *Frame) witnessCandidates() []string {
+	var out []string
+	var heads []*ssa.BasicBlock
+	for h := range fr.loops {
+		heads = append(heads, h)
+	}
+	sort.Slice(heads, func(i, j int) bool { return fr.loops[heads[i]].ord < fr.loops[heads[j]].ord })
+	for _, h := range heads {
+		for _, in := range h.Instrs {
+			if phi, ok := in.(*ssa.Phi); ok && phi.Comment == "rangeindex" {
+				if v, ok := fr.vals[phi]; ok {
+					out = append(out, fmt.Sprintf("(+ %s 1)", v.T))
+				}
+			}
+		}
+	}
+	return out
+}
+
+func (ec *EvalCtx) exceptListed(args []Expr, name string) bool {
+	for _, a := range args {
+		if id, ok := a.(*EIdent); ok && id.Name == name {
+			return true
+		}
+	}
+	return false
 }
 
 type evalErr string
@@ -90,6 +125,20 @@ func (ec *EvalCtx) lookupName(n string) (Val, bool) {
 // localByName resolves a local variable name: loop-header phis by comment, allocs by comment (loaded), debug refs.
 func (fr *Frame) localByName(n string, ec *EvalCtx) (Val, bool) {
 	ex := fr.ex
+	if len(n) == 4 && strings.HasPrefix(n, "idx") && n[3] >= '1' && n[3] <= '9' {
+		// idx<k>: index of loop with ordinal k (number of completed iterations / current element inside its body)
+		for _, li := range fr.loops {
+			if li.ord == int(n[3]-'0') {
+				for _, in := range li.head.Instrs {
+					if phi, ok := in.(*ssa.Phi); ok && phi.Comment == "rangeindex" {
+						if v, ok := fr.vals[phi]; ok {
+							return Val{T: fmt.Sprintf("(+ %s 1)", v.T), S: SInt, G: phi.Type()}, true
+						}
+					}
+				}
+			}
+		}
+	}
 	if ec.loop != nil {
 		if n == "idx" { // number of completed iterations of a range-over-slice loop
 			for phi := range ec.loop.phiHavoc {
@@ -181,7 +230,10 @@ func (ec *EvalCtx) eval(e Expr) Val {
 	case *EUn:
 		switch x.Op {
 		case "!":
-			return Val{T: not(ec.evalBool(x.X)), S: SBool}
+			ec.neg = !ec.neg
+			v := ec.evalBool(x.X)
+			ec.neg = !ec.neg
+			return Val{T: not(v), S: SBool}
 		case "-":
 			v := ec.eval(x.X)
 			return Val{T: fmt.Sprintf("(- %s)", v.T), S: v.S}
@@ -216,7 +268,10 @@ func (ec *EvalCtx) eval(e Expr) Val {
 	case *EQuant:
 		return ec.evalQuant(x)
 	case *EIte:
+		svn := ec.nopol
+		ec.nopol = true
 		c := ec.evalBool(x.C)
+		ec.nopol = svn
 		a := ec.eval(x.A)
 		b := ec.eval(x.B)
 		a, b = ec.unify(a, b)
@@ -302,11 +357,23 @@ func (ec *EvalCtx) evalBin(x *EBin) Val {
 	case "||":
 		return Val{T: or(ec.evalBool(x.X), ec.evalBool(x.Y)), S: SBool}
 	case "==>":
-		return Val{T: implies(ec.evalBool(x.X), ec.evalBool(x.Y)), S: SBool}
+		ec.neg = !ec.neg
+		l := ec.evalBool(x.X)
+		ec.neg = !ec.neg
+		return Val{T: implies(l, ec.evalBool(x.Y)), S: SBool}
 	case "<==>":
-		return Val{T: fmt.Sprintf("(= %s %s)", ec.evalBool(x.X), ec.evalBool(x.Y)), S: SBool}
+		sv := ec.nopol
+		ec.nopol = true
+		l, r := ec.evalBool(x.X), ec.evalBool(x.Y)
+		ec.nopol = sv
+		return Val{T: fmt.Sprintf("(= %s %s)", l, r), S: SBool}
+	}
+	svp := ec.nopol
+	if x.Op == "==" || x.Op == "!=" {
+		ec.nopol = true
 	}
 	a, b := ec.eval(x.X), ec.eval(x.Y)
+	ec.nopol = svp
 	switch x.Op {
 	case "==", "!=":
 		a, b = ec.unify(a, b)
@@ -566,6 +633,28 @@ func (ec *EvalCtx) evalQuant(x *EQuant) Val {
 		scope[b.Name] = Val{T: n, S: s}
 		decl = append(decl, fmt.Sprintf("(%s %s)", n, s))
 	}
+	// explicit instantiation of Int-bound existentials with loop-index candidates (equivalent formula, helps the solvers)
+	var insts []string
+	if !x.Forall && len(x.Vars) == 1 && ec.witDepth < 2 && ec.goal && !ec.neg && !ec.nopol {
+		if s0, _ := ex.S.sortByName(x.Vars[0].Type); s0 == SInt {
+			cands := ec.wit
+			if ec.fr != nil && cands == nil {
+				cands = ec.fr.witnessCandidates()
+			}
+			if len(cands) <= 3 {
+				for _, c := range cands {
+					ec.bound = append(ec.bound, map[string]Val{x.Vars[0].Name: {T: c, S: SInt}})
+					ec.witDepth++
+					saved := ec.wit
+					ec.wit = cands
+					insts = append(insts, ec.evalBool(x.Body))
+					ec.wit = saved
+					ec.witDepth--
+					ec.bound = ec.bound[:len(ec.bound)-1]
+				}
+			}
+		}
+	}
 	ec.bound = append(ec.bound, scope)
 	body := ec.evalBool(x.Body)
 	var pats []string
@@ -580,7 +669,11 @@ func (ec *EvalCtx) evalQuant(x *EQuant) Val {
 	if len(pats) > 0 {
 		body = fmt.Sprintf("(! %s :pattern (%s))", body, strings.Join(pats, " "))
 	}
-	return Val{T: fmt.Sprintf("(%s (%s) %s)", q, strings.Join(decl, " "), body), S: SBool}
+	res := fmt.Sprintf("(%s (%s) %s)", q, strings.Join(decl, " "), body)
+	if len(insts) > 0 {
+		res = or(append(insts, res)...)
+	}
+	return Val{T: res, S: SBool}
 }
 
 func (ec *EvalCtx) evalCall(x *ECall) Val {
@@ -649,6 +742,9 @@ func (ec *EvalCtx) evalCall(x *ECall) Val {
 	case "fresh": // allocated during this call
 		v := ec.coerce(ec.eval(x.Args[0]), SInt)
 		return Val{T: fmt.Sprintf("(> (root %s) allocbase)", v.T), S: SBool}
+	case "root":
+		v := ec.coerce(ec.eval(x.Args[0]), SInt)
+		return Val{T: fmt.Sprintf("(root %s)", v.T), S: SInt}
 	case "sarr":
 		v := ec.eval(x.Args[0])
 		return Val{T: fmt.Sprintf("(sarr %s)", v.T), S: SInt}
@@ -701,6 +797,96 @@ func (ec *EvalCtx) evalCall(x *ECall) Val {
 	case "isslice_any":
 		v := ec.eval(x.Args[0])
 		return Val{T: fmt.Sprintf("(= (itag %s) %d)", v.T, ex.D.tagOf(types.NewSlice(types.NewInterfaceType(nil, nil)))), S: SBool}
+	case "mapvals": // value array of a Go map
+		v := ec.eval(x.Args[0])
+		if v.G != nil {
+			if mt, ok := v.G.Underlying().(*types.Map); ok {
+				_, val, ks, vs := ex.mapArrays(mt)
+				return Val{T: fmt.Sprintf("(select %s %s)", ex.memGet(ec.mem, val), v.T), S: Sort(fmt.Sprintf("(Array %s %s)", ks, vs))}
+			}
+		}
+		ec.fail("mapvals of non-map")
+	case "copyOf": // every object-indexed model field has equal rows for a and b (b's row taken in the old state if given as old(b))
+		a := ec.coerce(ec.eval(x.Args[0]), SInt)
+		b := ec.coerce(ec.eval(x.Args[1]), SInt)
+		var parts []string
+		for _, mn := range sortedKeys(ex.S.Models) {
+			md := ex.S.Models[mn]
+			if len(md.Params) == 0 || md.Params[0].S != SInt || md.Params[0].Name != "o" {
+				continue
+			}
+			if len(x.Args) > 2 && ec.exceptListed(x.Args[2:], mn) {
+				continue
+			}
+			an, _ := ex.modelArray(mn)
+			src := ec.mem
+			if ec.old != nil && ec.copyFromOld {
+				src = ec.old
+			}
+			parts = append(parts, fmt.Sprintf("(= (select %s %s) (select %s %s))", ex.memGet(ec.mem, an), a.T, ex.memGet(src, an), b.T))
+		}
+		return Val{T: and(parts...), S: SBool}
+	case "copyOfOld": // like copyOf but b is read in the pre-state
+		ec.copyFromOld = true
+		v := ec.evalCall(&ECall{Fn: "copyOf", Args: x.Args})
+		ec.copyFromOld = false
+		return v
+	case "asstruct": // view an interface payload as a struct value of the named type
+		lit, ok := x.Args[0].(*ELit)
+		if !ok {
+			ec.fail("asstruct needs a type name literal")
+		}
+		t := ex.resolveType(lit.Val)
+		if t == nil {
+			ec.fail("asstruct: unknown type %q", lit.Val)
+		}
+		v := ec.eval(x.Args[1])
+		s := ex.D.sortOf(t)
+		return Val{T: ex.D.unbox(s, fmt.Sprintf("(ival %s)", v.T)), S: s, G: t}
+	case "hastype":
+		lit, ok := x.Args[0].(*ELit)
+		if !ok {
+			ec.fail("hastype needs a type name literal")
+		}
+		t := ex.resolveType(lit.Val)
+		if t == nil {
+			ec.fail("hastype: unknown type %q", lit.Val)
+		}
+		v := ec.eval(x.Args[1])
+		return Val{T: fmt.Sprintf("(= (itag %s) %d)", v.T, ex.D.tagOf(t)), S: SBool}
+	case "slice_of": // give a Slice value the Go type []T for the named T
+		lit, ok := x.Args[0].(*ELit)
+		if !ok {
+			ec.fail("slice_of needs a type name literal")
+		}
+		t := ex.resolveType(lit.Val)
+		if t == nil {
+			ec.fail("slice_of: unknown type %q", lit.Val)
+		}
+		v := ec.eval(x.Args[1])
+		return Val{T: v.T, S: SSlice, G: types.NewSlice(t)}
+	case "global": // address of a package-level variable
+		lit, ok := x.Args[0].(*ELit)
+		if !ok {
+			ec.fail("global needs a name literal")
+		}
+		i := strings.LastIndex(lit.Val, ".")
+		if i < 0 {
+			ec.fail("global: bad name")
+		}
+		p := ex.P.Pkgs[lit.Val[:i]]
+		if p == nil {
+			ec.fail("global: unknown package %q", lit.Val[:i])
+		}
+		g, ok2 := p.Members[lit.Val[i+1:]].(*ssa.Global)
+		if !ok2 {
+			ec.fail("global: unknown variable %q", lit.Val)
+		}
+		fr := ec.fr
+		if fr == nil {
+			ec.fail("global() needs a frame")
+		}
+		return fr.val(g)
 	case "oldmem_unchanged": // every pre-existing Go memory location holds its entry value
 		return Val{T: ec.memFrame(ec.old, ec.mem), S: SBool}
 	case "mapkeys": // key set of a Go map
@@ -752,7 +938,11 @@ func (ec *EvalCtx) evalCall(x *ECall) Val {
 			scope[df.Params[i].Name] = v
 		}
 		// defs are macros evaluated in the current state, with only their params in scope
-		sub := &EvalCtx{ex: ex, fr: nil, mem: ec.mem, old: ec.old, names: scope, loop: ec.loop, loopEntry: ec.loopEntry}
+		sub := &EvalCtx{ex: ex, fr: nil, mem: ec.mem, old: ec.old, names: scope, loop: ec.loop, loopEntry: ec.loopEntry, witDepth: ec.witDepth, goal: ec.goal, neg: ec.neg, nopol: ec.nopol}
+		sub.wit = ec.wit
+		if sub.wit == nil && ec.fr != nil {
+			sub.wit = ec.fr.witnessCandidates()
+		}
 		sub.bound = ec.bound
 		v := sub.eval(df.Body)
 		if v.S != df.Ret {
@@ -779,6 +969,13 @@ func (ec *EvalCtx) evalCall(x *ECall) Val {
 
 // pureResultSort finds the first result sort of a pure library function by its key.
 func (ex *Exec) pureResultSort(ct *Contract) Sort {
+	if ct.Returns != "" {
+		so, err := ex.S.sortByName(ct.Returns)
+		if err != nil {
+			panic(evalErr(err.Error()))
+		}
+		return so
+	}
 	for name, fn := range ssaFuncIndex(ex.P) {
 		if name == ct.Key {
 			return ex.D.sortOf(fn.Signature.Results().At(0).Type())
@@ -814,9 +1011,10 @@ func (ex *Exec) resolveType(s string) types.Type {
 	}
 	pp, name := s[:i], s[i+1:]
 	if !strings.Contains(pp, "/") && !strings.Contains(pp, ".") {
-		// short package name: search repo packages by name
-		for path, p := range ex.P.Pkgs {
-			if p.Pkg.Name() == pp && inRepo(path) {
+		// short package name: search packages by name (repo packages first)
+		for _, path := range sortedKeys(ex.P.Pkgs) {
+			p := ex.P.Pkgs[path]
+			if p.Pkg.Name() == pp {
 				if o := p.Pkg.Scope().Lookup(name); o != nil {
 					pp = path
 					break
@@ -859,7 +1057,7 @@ func (ec *EvalCtx) memFrame(a, b *MemState) string {
 	}
 	var ks []string
 	for k := range b.arrays {
-		if strings.HasPrefix(k, "M_") {
+		if strings.HasPrefix(k, "M_") || strings.HasPrefix(k, "F_") {
 			ks = append(ks, k)
 		}
 	}
@@ -869,6 +1067,13 @@ func (ec *EvalCtx) memFrame(a, b *MemState) string {
 		x, y := ex.memGet(a, k), ex.memGet(b, k)
 		if x == y {
 			continue
+		}
+		if strings.HasPrefix(k, "F_") {
+			md := ex.S.Models[strings.TrimPrefix(k, "F_")]
+			if md == nil || len(md.Params) == 0 || md.Params[0].S != SInt {
+				parts = append(parts, fmt.Sprintf("(= %s %s)", x, y))
+				continue
+			}
 		}
 		parts = append(parts, fmt.Sprintf("(forall ((a Int)) (! (=> (<= (root a) allocbase) (= (select %s a) (select %s a))) :pattern ((select %s a))))", x, y, y))
 	}
